@@ -173,6 +173,88 @@ def worker(task):
     return res
 
 
+def py_model_runs(e, decl, lo, hi):
+    """expected from_int classes: member for top-level value tags, the integer itself for range /
+    default values, EnumValueError otherwise (scanned below 2^w only: from_int has no width)"""
+    top = {t["value"]: t["id"] for t in decl["tags"] if A.tag_kind(t) == "value"}
+    cuts = {lo, hi + 1}
+    for v in e.values:
+        cuts.update((v, v + 1))
+    for s_, t_, _ in e.ranges:
+        cuts.update((s_, t_ + 1))
+    cuts = sorted(c for c in cuts if lo <= c <= hi + 1)
+    runs = []
+    for a, b in zip(cuts, cuts[1:]):
+        if a in top:
+            c = "O:" + top[a]
+        elif e.valid(a):
+            c = "I"
+        else:
+            c = "X:EnumValueError"
+        if runs and runs[-1][2] == c and runs[-1][1] + 1 == a:
+            runs[-1][1] = b - 1
+        else:
+            runs.append([a, b - 1, c])
+    return runs
+
+
+def py_worker(task):
+    from . import pywl
+    from ..engines.py import PyHarness, PyGenError
+    d = pywl._DESCS[task["di"]]
+    m = Model(d["file"])
+    res = {"evals": 0, "nontrivial": set(), "viol": [], "samples": [], "points": 0, "enums": 0,
+           "exhaustive_enums": 0, "shapes": {}, "widths": {}}
+
+    def V(sig, case):
+        case.update({"desc": d["name"], "profile": d["profile"], "gen_seed": d["gen_seed"], "pdl": d["text"]})
+        res["viol"].append(("C15", "C15|python|" + sig, case))
+    h = PyHarness(d["name"], d["file"], d["text"])
+    try:
+        h.generate()
+    except PyGenError:
+        return _fin(res)   # C13 / C10 report generation failures
+    if h.compile_check() or "types" not in h.call({"op": "types"}):
+        h.close()
+        return _fin(res)
+    for decl in m.file["declarations"]:
+        if decl["kind"] != "enum_declaration":
+            continue
+        e = m.enum(decl["id"])
+        res["enums"] += 1
+        shape = "%s:%s" % ("open" if e.default else "closed", "ranged" if e.ranges else "plain")
+        mx = umax(e.width)
+        ivs = [(0, mx)] if e.width <= 16 else [(lo, min(hi, mx)) for lo, hi in intervals(e) if lo <= mx]
+        if e.width <= 16:
+            res["exhaustive_enums"] += 1
+        for lo, hi in ivs:
+            r = h.call({"op": "from_int", "t": decl["id"], "lo": lo, "hi": hi}, timeout=60)
+            res["evals"] += 1
+            res["points"] += hi - lo + 1
+            case = {"enum": decl["id"], "width": e.width, "interval": [lo, hi]}
+            if "runs" not in r:
+                V("scan-failed|%s" % shape, dict(case, observed=rustwl._short(r)))
+                continue
+            want = py_model_runs(e, decl, lo, hi)
+            got = r["runs"]
+            for run in got:
+                res["nontrivial"].add(common.h("py", d["name"], decl["id"], run[0], run[1], run[2]))
+            if got != want:
+                x, gc, wc = first_diff(got, want)
+                kind = "accepts-invalid" if wc.startswith("X") and not gc.startswith("X") else \
+                       "rejects-valid" if gc.startswith("X:EnumValueError") and not wc.startswith("X") else \
+                       "wrong-exception:%s" % gc.split(":")[-1] if gc.startswith("X") else "wrong-result"
+                where = "tag" if x in e.values else "range" if any(s_ <= x <= t_ for s_, t_, _ in e.ranges) else "default-or-gap"
+                V("%s|%s:%s" % (kind, shape, where), dict(case, x=x, observed=gc, expected=wc))
+    h.close()
+    return _fin(res)
+
+
+def _fin(res):
+    res["nontrivial"] = sorted(res["nontrivial"])
+    return res
+
+
 def first_diff(got, want):
     def cls(runs, x):
         for a, b, c in runs:
@@ -193,6 +275,9 @@ def run(tier):
     rc = rustwl.prepare(check, tier, flavours=("dev",), profiles=["enum", "bitfield", "inherit", "mix", "optional"],
                         n_per_profile=n)
     results = common.pmap(worker, [{"di": i} for i in range(len(rc.live))])
+    from . import pywl
+    pd = pywl.prepare(check, tier, profiles=["enum", "bitfield", "inherit", "mix", "optional"], n_per_profile=n)
+    results += common.pmap(py_worker, [{"di": i} for i in range(len(pd))])
     tot = {"evals": 0, "nontrivial": set(), "samples": [], "points": 0, "enums": 0, "exhaustive_enums": 0,
            "shapes": {}, "widths": {}}
     for r in results:
@@ -210,7 +295,7 @@ def run(tier):
     cov = {"evaluations": tot["evals"], "distinct_nontrivial": len(tot["nontrivial"]), "rule": RULE,
            "samples": tot["samples"] or [{"note": "none"}], "integers_probed": tot["points"],
            "enums": tot["enums"], "enums_scanned_exhaustively": tot["exhaustive_enums"],
-           "enum_shapes": tot["shapes"], "enum_widths": tot["widths"], "backends": ["rust"],
+           "enum_shapes": tot["shapes"], "enum_widths": tot["widths"], "backends": ["rust", "python"],
            "exhaustive": False,
            "explanation": "exhaustive over all 2^w integers for every enum with w <= 16; boundary neighbourhoods beyond"}
     return check.finish(cov, assumptions=["model of tags/ranges/default in pv/refmodel.py EnumInfo",
